@@ -420,3 +420,10 @@ def hulls_and_bounds(tier, seed):
     r = common.result(cases, cases, fails, "11 point sets x (hull, AABB, 3 OBB variants, OBB primitive, sphere, cylinder) for point cloud and hull mesh + 2-D variants", exhaustive=True)
     r["failures"] = fails
     return r
+
+
+# (a contract on bounds.oriented_bounds_2D - the returned rectangle contains and touches the hull,
+# for three symbolic hull points with qhull replaced by its contract - was tried: exploration
+# takes 10 s / 2 paths, but the obligations (sqrt normalisation, division, atan2, nested
+# min / max / argmin) are not decided by z3, cvc5 or the Groebner back end within the 240 s
+# budget. It is not registered; containment for oriented boxes stays in the bounded tier.)
